@@ -279,6 +279,16 @@ def cases():
                 yield {'kind': 'a', 'assign': list(assign), 'scope': scope, 'spell': spell, 'dir': 'provides',
                        'sem': 'MTS', 'scopes': rep_scopes}
                 yield {'kind': 'b', 'assign': list(assign), 'scope': scope, 'spell': spell, 'scopes': rep_scopes}
+    # references qualified with the COMPLETE referring scope while a namespace chain of the same name is nested in
+    # that scope or its parent (A.A, A.A.B): the candidate <scope>.<written name> comes before <written name>
+    rep2_scopes = [[], ['A'], ['A', 'A'], ['A', 'B'], ['A', 'A', 'B']]
+    rep2_spell = [['X'], ['A', 'X'], ['A', 'B', 'X'], ['B', 'X'], ['A', 'A', 'X']]
+    for assign in itertools.product(KIND3, repeat=5):
+        for scope in (['A'], ['A', 'B'], ['A', 'A']):
+            for spell in rep2_spell:
+                yield {'kind': 'a', 'assign': list(assign), 'scope': scope, 'spell': spell, 'dir': 'provides',
+                       'sem': 'MTS', 'scopes': rep2_scopes}
+                yield {'kind': 'b', 'assign': list(assign), 'scope': scope, 'spell': spell, 'scopes': rep2_scopes}
     for assign in itertools.product(KIND3, repeat=5):
         for spell in SPELL_R:
             yield {'kind': 'c', 'assign': list(assign), 'spell': spell}
